@@ -53,6 +53,13 @@ pub fn double_frees() -> usize {
 
 thread_local! {
     static EXPECT: Cell<(usize, usize)> = const { Cell::new((0, 0)) };
+    /// address of the last block this thread allocated for an announced flurry object
+    static LAST_TRACKED: Cell<usize> = const { Cell::new(0) };
+}
+
+/// Address of the flurry object this thread allocated since the last call (0 = none).
+pub fn take_last_tracked() -> usize {
+    LAST_TRACKED.with(|l| l.replace(0))
 }
 
 fn lock() {
@@ -111,6 +118,7 @@ unsafe impl GlobalAlloc for QAlloc {
             let want = EXPECT.with(|e| e.get());
             if want.0 != 0 && want.0 == layout.size() && want.1 == layout.align() {
                 EXPECT.with(|e| e.set((0, 0)));
+                LAST_TRACKED.with(|l| l.set(p as usize));
                 lock();
                 let t = tab();
                 if t.n < CAP {
